@@ -39,7 +39,10 @@ RoundTripClauses(e) ==
      <<"modeUnchanged", o.mode = (IF e.case.mode = "symm" THEN "symmetric-upper" ELSE "square")>>,
      <<"nnzAgrees", o.nnz = Len(e.case.px)>>,
      <<"metaUnchanged", o.meta = e.case.meta>>,
-     <<"assemblyUnchanged", o.assembly = e.case.assembly>> >>
+     <<"assemblyUnchanged", o.assembly = e.case.assembly>>,
+     <<"infoCommandAgrees", /\ o.cli_meta = e.case.meta /\ o.cli_assembly = e.case.assembly /\ o.cli_nnz = Len(e.case.px)
+                             /\ o.cli_nbins = Len(e.case.table)
+                             /\ o.cli_mode = (IF e.case.mode = "symm" THEN "symmetric-upper" ELSE "square")>> >>
   \o CSRClauses(e.obs.raw)
 
 (* csr.colls: raw projections of every collection some producer wrote *)
